@@ -1,6 +1,32 @@
-(* C14 tie — the regenerated loop body is the statement list whose refinement of the state machine is proved. *)
+(* C14 tie — one iteration of the regenerated loop body is, for every file name, batch and state, the same state
+   transformer (same new state, same yields, same failures) as one iteration of the reference body whose refinement of the
+   state machine is proved in Proofs/C14_skel.v.  The tie is semantic: a body with `elif`, early guards in another
+   order or extra no-op guards passes as long as the case analysis below closes. *)
 From DV Require Import Base.Tactics Model.C14 Model.C14_skel Proofs.C14_skel.
 From G Require Import C14_gen.
 
-Lemma gen_body_tie : gen_body = spec_body.
-Proof. reflexivity. Qed.
+Ltac c14_step := cbn [exec exec1 holds zlast zbuf zcounter zvsz negb].
+Ltac c14_case :=
+  match goal with
+  | |- context [if ?x then _ else _] => destruct x eqn:?
+  | |- context [match ?x with Some _ => _ | None => _ end] =>
+      match x with
+      | exec _ _ _ _ _ _ _ _ _ _ => fail 1
+      | exec1 _ _ _ _ _ _ _ _ _ _ => fail 1
+      | _ => destruct x eqn:?
+      end
+  end.
+
+Lemma gen_body_tie (Name Out : Type) (name_eqb : Name -> Name -> bool) (vsize : Name -> nat) :
+  (forall a b, name_eqb a b = true <-> a = b) ->
+  forall fname outs z,
+    exec Name Out name_eqb vsize 3 gen_body fname outs z [] = exec Name Out name_eqb vsize 2 spec_body fname outs z [].
+Proof.
+  intros Hs fname outs [l b c v].
+  assert (Hrefl : forall a, name_eqb a a = true) by (intros a; apply Hs; reflexivity).
+  unfold gen_body, spec_body.
+  destruct l as [l|]; [destruct (name_eqb l fname) eqn:E|]; destruct b as [b|]; c14_step;
+    rewrite ?E, ?Hrefl; c14_step;
+    repeat (first [reflexivity | c14_case; c14_step; rewrite ?E, ?Hrefl; c14_step]);
+    try reflexivity; try congruence.
+Qed.
